@@ -17,16 +17,16 @@ PInit == v \in ValueSet /\ o \in OptionSet
 PNext == UNCHANGED vars
 PSpec == PInit /\ [][PNext]_vars
 
-Text == Print(v, o)
+Text == Render(v, o)
 
 Dump == PrintT(ToJson([k |-> "print", v |-> v, o |-> o, text |-> Text]))
 
 \* C04: the printed text is a strict document denoting the original value
 ParseOfPrint == LET r == Run(Text, Strict) IN r.mode = "done" /\ r.val = v
 \* options only ever change insignificant whitespace
-OnlyWhitespaceDiffers == StripWs(Text) = Print(v, Compact)
+OnlyWhitespaceDiffers == StripWs(Text) = Render(v, Compact)
 \* C08: compact output contains no whitespace outside strings
-CompactMinimal == StripWs(Print(v, Compact)) = Print(v, Compact)
+CompactMinimal == StripWs(Render(v, Compact)) = Render(v, Compact)
 \* C13: without limits nothing is ever expanded
 NoLimitSingleLine == (o.alim = <<"none">> /\ o.olim = <<"none">>) => \A i \in 1..Len(Text) : Text[i] # 10
 
